@@ -595,7 +595,7 @@ func genC20Blank(t *rapid.T) C20BlankCase {
 	for i := 0; i < n; i++ {
 		switch rapid.IntRange(0, 9).Draw(t, "op") {
 		case 0, 1, 2, 3, 4:
-			op := BlankOp{K: "set", Kind: rapid.SampledFrom([]string{"static", "static", "watching", "value-error", "watch-error", "nil"}).Draw(t, "kind"), L: genWLayer(t, i+1)}
+			op := BlankOp{K: "set", Kind: rapid.SampledFrom([]string{"static", "static", "watching", "value-error", "watch-error", "nil", "watcher-value-error"}).Draw(t, "kind"), L: genWLayer(t, i+1)}
 			if op.Kind == "watching" && rapid.Bool().Draw(t, "eager") {
 				e := genWLayer(t, 100+i)
 				op.Eager = &e
@@ -699,13 +699,16 @@ func runC20Blank(c C20BlankCase) (verdict vrt.Verdict) {
 					}
 				case "value-error":
 					s = &fake.Static{Err: errInner}
+				case "watcher-value-error":
+					// a watching source whose Value fails: nothing is installed
+					s = &fake.Watcher{Err: errInner}
 				case "watch-error":
 					nw = &fake.Watcher{Mk: func(t *dials.Type) reflect.Value { return wNative(t.Type(), l) }, WatchErr: errInner}
 					s = nw
 				case "nil":
 					s = nil
 				}
-				if !monAlive && op.Kind != "nil" && op.Kind != "value-error" && innerWatcher == nil {
+				if !monAlive && op.Kind != "nil" && op.Kind != "value-error" && op.Kind != "watcher-value-error" && innerWatcher == nil {
 					// SetSource after the monitor is gone would block until its context ends
 					sctx, scancel := context.WithTimeout(ctx, time.Hour)
 					err := blank.SetSource(sctx, s)
@@ -740,7 +743,7 @@ func runC20Blank(c C20BlankCase) (verdict vrt.Verdict) {
 						return
 					}
 					labels["refused-to-replace-watcher"] = true
-				case op.Kind == "value-error":
+				case op.Kind == "value-error" || op.Kind == "watcher-value-error":
 					if err == nil || !errors.Is(err, errInner) {
 						fail("%s: SetSource with a failing Value returned %v, want the inner error", step, err)
 						return
@@ -858,7 +861,7 @@ func TestC20Blank(t *testing.T) {
 	curT = t
 	vrt.Check(t, vrt.Prop[C20BlankCase]{
 		ID: "C20", Name: "blank",
-		Rule: "scripts of 1..8 operations on a sourcewrap.Blank inside a real Dials (optionally next to another watcher): SetSource(static | watching | failing Value | failing Watch | nil), Done, reports from the inner watcher and from the other watcher; " +
+		Rule: "scripts of 1..8 operations on a sourcewrap.Blank inside a real Dials (optionally next to another watcher): SetSource(static | watching | failing Value (static or watching source) | failing Watch | nil), Done, reports from the inner watcher and from the other watcher; " +
 			"a watching inner source may report an update from its own goroutine as soon as its (slow) Watch has started; " +
 			"oracle: reference model of Blank - the view always stacks the latest value of each slot (an update reported right after Watch started comes after the initial value, as it would natively), SetSource propagates inner errors and refuses to replace a watching inner source, Blank.Value delegates to the most recently set non-watching inner source, Done ends the watch slot (monitor exits when it was the last) only while Blank still owns it; " +
 			"non-trivial = a refused replacement or a Done call; distinct = distinct case JSON",
